@@ -1,7 +1,7 @@
 import BeyondVerif.Model.Iter
 /-!
 Kernel-checked regression witnesses (`decide`) for the clauses of C08 that the code falsified before the `fix:` commits named
-in brackets (known_findings.d/C08.json, status `fixed`), and one counter-witness for the clause it still falsifies (status `open`). Each is the formerly failing input of the corresponding finding, evaluated
+in brackets (known_findings.d/C08.json, status `fixed`). Each is the formerly failing input of the corresponding finding, evaluated
 on `Model/Iter.lean` as it follows the code NOW: the model yields the stream the property requires. The correspondence run shows the
 code behaves the same, and the oracle in `harness/props/C08.py` replays the same inputs on the real API (family in brackets):
 a failure there is reported as a VIOLATION again.
@@ -58,8 +58,12 @@ theorem ephem_empty_list_yields_nothing : ephemIter 20 8 pts (some (.list [])) n
 theorem analytical_empty_list_yields_nothing : analyticalIter 20 0 none { dates := some (.list []) } = (true, ⟨[], .done⟩) := by decide
 
 /-- orbit values of the witnesses below: (object, (number of changes of its elements, number of changes of its drag term));
-`Sgp4._state` sees the object's coordinates, not its drag term -/
+`Sgp4._state` sees both (since 3d341d9) -/
 def world (k : Kind) : World (Nat × Nat × Nat) :=
+  { kind := k, store := Prod.mk, sameState := fun a b => a == b, epoch := fun _ => 0 }
+
+/-- the world of the code BEFORE 3d341d9: `Sgp4._state` did not see the drag term -/
+def worldOld (k : Kind) : World (Nat × Nat × Nat) :=
   { kind := k, store := Prod.mk, sameState := fun a b => a.1 == b.1 && a.2.1 == b.2.1, epoch := fun _ => 0 }
 
 /-- [sgp4-history-dependent-state-after-inplace-change, c604b3e] Sgp4 re-derives its satellite record when the bound orbit was
@@ -74,18 +78,28 @@ theorem sgp4_follows_modify :
     (exec w (fun v _ => v) (fun _ _ _ => false) 10 ({ ver := s.ver } : St (Nat × Nat × Nat)) (.propagate 0 7)).2.states = [(0, 1, 0)] := by
   decide
 
-/-- COUNTER-witness [sgp4-history-dependent-state-after-inplace-drag-term-change, OPEN finding C08-sgp4-stale-after-drag-term-change]:
-after `propagate; orb.bstar = x`, Sgp4 still returns the trajectory of the OLD drag term (`(0, 0, 0)`) whereas fresh objects follow
-the new one (`(0, 0, 1)`): `Sgp4._state` does not see the change. The hypothesis `Faithful` of `propagate_pure_partial` is needed. -/
-theorem sgp4_stale_after_drag_change :
+/-- [sgp4-history-dependent-state-after-inplace-drag-term-change, 3d341d9] after `propagate; orb.bstar = x`, Sgp4 rebuilds its
+record: `propagate` and `iter` return the trajectory of the NEW drag term (`(0, 0, 1)`; was `(0, 0, 0)`), as fresh objects do -/
+theorem sgp4_follows_drag_change :
     let w := world .sgp4
+    let s := runHist (R := Nat × Nat × Nat) w (fun v _ => v) (fun _ _ _ => false) 10 {} [.propagate 0 5, .modifyMeta 0]
+    (exec w (fun v _ => v) (fun _ _ _ => false) 10 s (.propagate 0 7)).2.states = [(0, 0, 1)] ∧
+    (exec w (fun v _ => v) (fun _ _ _ => false) 10 s (.iter 0 { stop := some (.at 20), step := some (some 10) } [] 5)).2.states
+      = [(0, 0, 1), (0, 0, 1), (0, 0, 1)] ∧
+    (exec w (fun v _ => v) (fun _ _ _ => false) 10 ({ ver := s.ver } : St (Nat × Nat × Nat)) (.propagate 0 7)).2.states = [(0, 0, 1)] := by
+  decide
+
+/-- the hypothesis `Faithful` of `propagate_pure` is needed: in a world whose `sameState` does not see a component of the orbit
+value (the code before 3d341d9) the old trajectory is returned -/
+theorem stale_when_not_faithful :
+    let w := worldOld .sgp4
     let s := runHist (R := Nat × Nat × Nat) w (fun v _ => v) (fun _ _ _ => false) 10 {} [.propagate 0 5, .modifyMeta 0]
     (exec w (fun v _ => v) (fun _ _ _ => false) 10 s (.propagate 0 7)).2.states = [(0, 0, 0)] ∧
     (exec w (fun v _ => v) (fun _ _ _ => false) 10 ({ ver := s.ver } : St (Nat × Nat × Nat)) (.propagate 0 7)).2.states = [(0, 0, 1)] := by
   decide
 
-/-- … a later change of the elements makes Sgp4 rebuild the record, with the current drag term -/
-theorem sgp4_drag_change_seen_after_element_change :
+/-- … and any interleaving of the two kinds of changes is followed -/
+theorem sgp4_follows_both_changes :
     let w := world .sgp4
     let s := runHist (R := Nat × Nat × Nat) w (fun v _ => v) (fun _ _ _ => false) 10 {} [.propagate 0 5, .modifyMeta 0, .modify 0]
     (exec w (fun v _ => v) (fun _ _ _ => false) 10 s (.propagate 0 7)).2.states = [(0, 1, 1)] := by
